@@ -9,7 +9,7 @@
 //   * every transaction: the ops of the committed change == the ops the model's mark / unmark /
 //     splice_text generate (this is where the insert anchor rule of InsertQuery is compared);
 //   * every view (each replica and the union of all changes; current state and recorded heads):
-//     marks() / marks_at, get_marks(i) for every element index i (and two past the end), spans() /
+//     marks() / marks_at, get_marks(i) for every text index i (and two past the end), spans() /
 //     spans_at == the model's readers.
 // Direct checks on the implementation: the three readers agree pointwise; reads are unchanged by
 // save + load; marks_at(heads) == marks() of fork_at(heads); replicas holding the same changes read
@@ -102,7 +102,7 @@ type Set = Vec<(String, ScalarValue)>;
 struct Reads {
     text: String,
     marks: Vec<(usize, usize, String, ScalarValue)>,
-    get: Vec<Set>,             // get_marks(i), i = 0 ..= elements + 1
+    get: Vec<Set>,             // get_marks(i), i = 0 ..= length + 1 (text indexes)
     spans: Vec<(String, Set)>, // text spans (blocks never occur here)
 }
 
@@ -121,7 +121,11 @@ fn reads<D: ReadDoc>(doc: &D, t: &ObjId, heads: Option<&[ChangeHash]>) -> Result
         Some(h) => doc.marks_at(t, h),
     }
     .map_err(|e| format!("marks: {}", e))?;
-    let n = text.chars().count();
+    // every text index (units of the document's encoding) and two past the end
+    let n = match heads {
+        None => doc.length(t),
+        Some(h) => doc.length_at(t, h),
+    };
     let mut get = vec![];
     for i in 0..n + 2 {
         get.push(set_of(&doc.get_marks(t, i, heads).map_err(|e| format!("get_marks({}): {}", i, e))?));
@@ -149,8 +153,7 @@ fn coq_set(s: &Set) -> String {
 struct Pointwise {
     by_marks: Vec<BTreeMap<String, ScalarValue>>,
     by_spans: Vec<BTreeMap<String, ScalarValue>>,
-    by_get_elem: Vec<BTreeMap<String, ScalarValue>>, // get_marks(element index) spread over the element's width
-    by_get_index: Vec<BTreeMap<String, ScalarValue>>, // get_marks(text index) read literally
+    by_get_index: Vec<BTreeMap<String, ScalarValue>>, // get_marks(text index)
     spans_text: String,
     overlapping_marks: bool,
 }
@@ -181,15 +184,8 @@ fn pointwise(enc: TextEncoding, r: &Reads) -> Pointwise {
             }
         }
     }
-    let mut by_get_elem = vec![];
-    for (k, w) in widths.iter().enumerate() {
-        let m: BTreeMap<String, ScalarValue> = r.get[k].iter().cloned().collect();
-        for _ in 0..*w {
-            by_get_elem.push(m.clone());
-        }
-    }
     let by_get_index = (0..len).map(|i| r.get.get(i).map(|s| s.iter().cloned().collect()).unwrap_or_default()).collect();
-    Pointwise { by_marks, by_spans, by_get_elem, by_get_index, spans_text, overlapping_marks: overlapping }
+    Pointwise { by_marks, by_spans, by_get_index, spans_text, overlapping_marks: overlapping }
 }
 
 // ------------------------------------------------------------------ replicas with transaction bookkeeping
@@ -396,18 +392,15 @@ fn direct_reader_checks(rep: &mut Report, enc: TextEncoding, r: &Reads, ctx: &se
         rep.fail(&["C25"], "marks|readers-disagree|marks-vs-spans", &format!("at text index {}: marks() says {:?}, spans() says {:?}", i, pw.by_marks[i], pw.by_spans[i]), ctx.clone());
         ok = false;
     }
-    if pw.by_get_elem != pw.by_marks {
-        let i = (0..pw.by_marks.len()).find(|i| pw.by_get_elem.get(*i) != Some(&pw.by_marks[*i])).unwrap_or(0);
-        rep.fail(&["C25"], "marks|readers-disagree|marks-vs-get_marks", &format!("at text index {}: marks() says {:?}, get_marks(element) says {:?}", i, pw.by_marks.get(i), pw.by_get_elem.get(i)), ctx.clone());
+    // get_marks(i) with i a text index in the document's encoding
+    if r.get.len() != pw.by_marks.len() + 2 {
+        rep.fail(&["C25", "C24"], "marks|length-differs", &format!("length {} != width of text {:?} ({})", r.get.len() - 2, r.text, pw.by_marks.len()), ctx.clone());
         ok = false;
-    }
-    // the literal reading: get_marks(i) with i a text index in the document's encoding
-    if pw.by_get_index != pw.by_marks {
+    } else if pw.by_get_index != pw.by_marks {
         let i = (0..pw.by_marks.len()).find(|i| pw.by_get_index[*i] != pw.by_marks[*i]).unwrap();
-        rep.count("get_marks_index_unit_mismatch");
-        rep.fail(&["C25"], &format!("marks|get_marks-counts-elements|{}", enc_name(enc)),
-            &format!("get_marks(index) counts characters while marks() / spans() / splice_text / mark count {} units: text {:?}, at index {} marks() says {:?} but get_marks({}) = {:?}",
-                enc_name(enc), r.text, i, pw.by_marks[i], i, pw.by_get_index[i]), ctx.clone());
+        rep.fail(&["C25"], &format!("marks|readers-disagree|marks-vs-get_marks|{}", enc_name(enc)),
+            &format!("text {:?}: at text index {} marks() says {:?} but get_marks({}) = {:?}", r.text, i, pw.by_marks[i], i, pw.by_get_index[i]), ctx.clone());
+        ok = false;
     }
     ok
 }
@@ -447,8 +440,8 @@ fn history(rng: &mut Rng, rep: &mut Report, cw_: &mut CaseWriter, hi: usize, tho
                     rep.count(if st == 0 { "calls_ok" } else { "calls_failed" });
                     if st != 0 && reps[r].doc.pending_ops() != before_pending {
                         rep.count("failed_call_left_ops");
-                        rep.fail(&["C06", "C03"], "marks|failed-mark-leaves-begin",
-                            &format!("{:?} returned an error but left {} op(s) in the transaction (the MarkBegin: the mark now runs to the end of the text)", c, reps[r].doc.pending_ops() - before_pending),
+                        rep.fail(&["C25", "C06", "C03"], "marks|failed-call-left-ops",
+                            &format!("{:?} returned an error but left {} op(s) in the transaction", c, reps[r].doc.pending_ops() - before_pending),
                             json!({"log": log, "history": hi}));
                     }
                 }
@@ -680,8 +673,8 @@ fn expand_probes(rng: &mut Rng, rep: &mut Report, n: usize) {
         log.push(format!("insert Q at {}", pos));
         let text = doc.text(&t).unwrap();
         let qi = text.chars().position(|c| c == 'Q').unwrap();
-        let covered_get = doc.get_marks(&t, qi, None).unwrap().iter().any(|(n, _)| n == "bold");
         let qpos = starts(enc, &text)[qi];
+        let covered_get = doc.get_marks(&t, qpos, None).unwrap().iter().any(|(n, _)| n == "bold");
         let covered_marks = doc.marks(&t).unwrap().iter().any(|m| m.name() == "bold" && m.start <= qpos && qpos < m.end);
         let want = if at_end { expand_of(x).after() } else { expand_of(x).before() };
         rep.case(Some(fnv(format!("{:?}", log).as_bytes())));
@@ -690,6 +683,52 @@ fn expand_probes(rng: &mut Rng, rep: &mut Report, n: usize) {
             rep.fail(&["C25"], &format!("marks|expand|{:?}|{}", expand_of(x), if at_end { "end" } else { "start" }),
                 &format!("a character inserted at the {} boundary of a mark with expand {:?} is covered: get_marks {} marks() {}, expected {}", if at_end { "end" } else { "start" }, expand_of(x), covered_get, covered_marks, want),
                 json!({"log": log}));
+        }
+    }
+}
+
+/// the inputs of the two defects repaired in 4cf188c2a, kept as probes
+fn fixed_probes(rep: &mut Report) {
+    // (1) get_marks counts units of the text encoding
+    for (enc, text, s, e, want) in [
+        (TextEncoding::Utf8CodeUnit, "\u{e9}ab", 2usize, 3usize, vec![false, false, true, false, false]),
+        (TextEncoding::Utf16CodeUnit, "\u{1F600}ab", 2, 3, vec![false, false, true, false, false]),
+        (TextEncoding::UnicodeCodePoint, "\u{e9}ab", 1, 2, vec![false, true, false, false]),
+    ] {
+        let mut doc = AutoCommit::new_with_encoding(enc);
+        let t = doc.put_object(ROOT, "t", ObjType::Text).unwrap();
+        doc.splice_text(&t, 0, 0, text).unwrap();
+        doc.mark(&t, Mark::new("bold".into(), true, s, e), ExpandMark::None).unwrap();
+        let got: Vec<bool> = (0..want.len()).map(|i| doc.get_marks(&t, i, None).map(|m| m.iter().any(|(n, _)| n == "bold")).unwrap_or(false)).collect();
+        let marks = doc.marks(&t).unwrap();
+        rep.case(Some(fnv(format!("probe-get_marks-{}", enc_name(enc)).as_bytes())));
+        rep.count("fixed_probes");
+        if got != want || marks.len() != 1 || marks[0].start != s || marks[0].end != e {
+            rep.fail(&["C25"], &format!("marks|readers-disagree|marks-vs-get_marks|{}", enc_name(enc)),
+                &format!("{} text {:?} with bold over [{},{}): marks() = {:?}, get_marks(0..) covered = {:?}, expected {:?}", enc_name(enc), text, s, e, marks, got, want),
+                json!({"probe": "get_marks-units", "encoding": enc_name(enc)}));
+        }
+    }
+    // (2) a mark / unmark that fails leaves nothing behind
+    for (which, start, end) in [("mark", 2usize, 100usize), ("unmark", 2, 100), ("mark", 6, 7), ("mark", 6, 6), ("unmark", 3, 6)] {
+        let mut doc = AutoCommit::new();
+        let t = doc.put_object(ROOT, "t", ObjType::Text).unwrap();
+        doc.splice_text(&t, 0, 0, "hello").unwrap();
+        doc.commit();
+        let res = if which == "mark" {
+            doc.mark(&t, Mark::new("bold".into(), true, start, end), ExpandMark::Both)
+        } else {
+            doc.unmark(&t, "bold", start, end, ExpandMark::Both)
+        };
+        let pending = doc.pending_ops();
+        let marks = doc.marks(&t).unwrap();
+        let past = doc.get_marks(&t, 6, None).unwrap();
+        rep.case(Some(fnv(format!("probe-failed-{}-{}-{}", which, start, end).as_bytes())));
+        rep.count("fixed_probes");
+        if !matches!(res, Err(AutomergeError::InvalidIndex(_))) || pending != 0 || !marks.is_empty() || past.len() != 0 {
+            rep.fail(&["C25", "C06", "C03"], "marks|failed-call-left-ops",
+                &format!("{}(bold, {}, {}) on \"hello\": result {:?}, pending ops {}, marks() {:?}", which, start, end, res.map_err(|e| e.to_string()), pending, marks),
+                json!({"probe": "failed-mark", "call": which, "start": start, "end": end}));
         }
     }
 }
@@ -703,6 +742,7 @@ pub fn run(rng: &mut Rng, tier: &str, out: &str) -> Report {
         history(rng, &mut rep, &mut cw_, hi, thorough);
     }
     expand_probes(rng, &mut rep, if thorough { 2400 } else { 240 });
+    fixed_probes(&mut rep);
     rep.model_cases = cw_.total as u64;
     cw_.finish();
     rep
